@@ -91,8 +91,14 @@ Definition issue_instant_text_zoned (now off : Z) : string :=
    request with its own clock exactly at wire instant + MaxIssueDelay and one
    nanosecond later *)
 Record iicase := { ii_now : Z; ii_off : Z; ii_text : string; ii_at_bound : bool; ii_after_bound : bool }.
+(* agreement is on the INSTANT the text denotes (the model's own rendering
+   issue_instant_text_zoned is one spelling of it; writing the same instant in
+   UTC or with another equivalent offset spelling is the same message) *)
 Definition iicase_agree (c : iicase) : bool :=
-  seqb (issue_instant_text_zoned (ii_now c) (ii_off c)) (ii_text c) && ii_at_bound c && negb (ii_after_bound c).
+  match parse_relaxed (ii_text c), parse_relaxed (issue_instant_text_zoned (ii_now c) (ii_off c)) with
+  | Ok t, Ok t' => t =? t'
+  | _, _ => false
+  end && ii_at_bound c && negb (ii_after_bound c).
 (* whatever zone the clock is in, the written text denotes (as an INSTANT) the
    SP's clock cut to the millisecond, and the IdP accepts within MaxIssueDelay of it *)
 Definition iicase_spec (c : iicase) : bool :=
